@@ -443,6 +443,30 @@ def run(cfg):
         X.append(x)
         P.append(p)
         sigs.add(tuple(np.sign(np.round(p - x, 9)).astype(int)))
+    # history clauses: the step handed to the factory is not modified; the operator applied again
+    # to the first point, and a second operator made from the SAME step object, give the same
+    # result as the first time
+    if X:
+        try:
+            if cfg['sk'] == 'elem' and not np.array_equal(S.to_flat(sigma).astype(float), sig_arr):
+                first.setdefault('step_element_modified',
+                                 'the element sigma=%s handed to proximal() holds %s afterwards'
+                                 % (sig_arr.tolist(), S.to_flat(sigma).tolist()))
+            tolh = max(ptol, 1e-9)
+            again = S.to_flat(prox(info.elem(X[0]))).astype(float)
+            if not np.all(np.abs(again - P[0]) <= tolh * (1 + np.abs(P[0]))):
+                first.setdefault('proximal_not_repeatable',
+                                 'x=%s: prox(x)=%s at first, %s when applied again later'
+                                 % (X[0].tolist(), P[0].tolist(), again.tolist()))
+            prox2 = f.proximal(sigma)
+            second = S.to_flat(prox2(info.elem(X[-1]))).astype(float)
+            evals += 2
+            if not np.all(np.abs(second - P[-1]) <= tolh * (1 + np.abs(P[-1]))):
+                first.setdefault('second_operator_from_same_step_differs',
+                                 'x=%s: prox(x)=%s, but a second operator made from the same sigma '
+                                 'object gives %s' % (X[-1].tolist(), P[-1].tolist(), second.tolist()))
+        except Exception as e:
+            first.setdefault('history_raises:' + type(e).__name__, repr(e)[:200])
     # firm non-expansiveness on all pairs, in the metric of the quadratic term
     if len(X) > 1:
         X = np.array(X)
